@@ -89,7 +89,7 @@ func c10Profile(plan chainPlan) shape.Profile {
 		n  int
 	}{
 		{"map[string]struct{}", 3}, {"time.Duration", 3}, {"net.IP", 2}, {"[]Job", 2}, {"time.Time", 2}, {"int", 2}, {"TagSet", 1},
-		{"string", 2}, {"[]time.Duration", 1}, {"map[string]time.Duration", 1}, {"[]string", 1}, {"Stamp", 1}, {"Color", 1}, {"bool", 1},
+		{"[]time.Duration", 2}, {"string", 2}, {"map[string][]time.Duration", 1}, {"map[string]time.Duration", 1}, {"[][]time.Duration", 1}, {"[]string", 1}, {"Stamp", 1}, {"Color", 1}, {"bool", 1},
 		{"[2]time.Duration", 1}, {"*time.Duration", 1}, {"float64", 1}, {"map[string]string", 1},
 	} {
 		for i := 0; i < w.n; i++ {
@@ -460,7 +460,10 @@ func genCase(t *rapid.T, random bool) Case {
 	pct := []int{0, 2, 3, 5, 7, 8, -1, -1}[rapid.IntRange(0, 7).Draw(t, "fill_density")]
 	var fillable []originLeaf
 	for _, ol := range md.origins {
-		if ol.fillable {
+		// the translated counterpart under the drawn alias sides must exist
+		// and be able to carry a value (the alias copy of an embedded struct
+		// is a named field: a chain may hoist one side and cast the other)
+		if tl, ok := md.pick(ol.path, c.Sides); ok && !tl.f.dead {
 			fillable = append(fillable, ol)
 		}
 	}
